@@ -162,6 +162,8 @@ def native_replay(o=None):
 
 
 def run(R):
+    from engine.canary import run_canaries
+    run_canaries(R, ('symx',))
     import multiprocessing as mp
     import aurel.reading as Rm
     for n in ('read_ET_data', 'read_aurel_data', 'save_data', 'read_data', 'transform_vars_tensor_to_scalar'):
